@@ -78,7 +78,7 @@ pub fn unquote(s: &str) -> String {
 }
 
 pub fn is_env(line: &str) -> bool {
-    re_contains(line, r"^[a-zA-Z_][a-zA-Z0-9_]*=.*$")
+    re_contains(line, r"(?s)^[a-zA-Z_][a-zA-Z0-9_]*=.*$")
 }
 
 // #[allow(clippy::trivial_regex)]
